@@ -26,6 +26,10 @@ JudgeSx(e) ==
       sp == SxParse(e.bytes)
       specReads == sp.ok /\ sp.v = v
       realReads == e.pkind = "ok" /\ SxOf(e.pv) = v
+      \* the caller's own slice: untouched by parsing it and by using the parsed value (Checksum, SysEx), and parsing it once
+      \* more returns the value again
+      ownIntact == e.after = e.bytes
+      reReads == e.p2kind = "ok" /\ SxOf(e.p2v) = v
       ValidC(c) == c.pos \in 6..(n - 1) /\ c.val \in SxB7 /\ c.val # e.bytes[c.pos]
       Corr(c) == [e.bytes EXCEPT ![c.pos] = c.val]
       nInvalid == Len(SelectSeq(e.sample, LAMBDA c : ~ValidC(c))) + Len(SelectSeq(e.noterr, LAMBDA c : ~ValidC(c)))
@@ -35,10 +39,10 @@ JudgeSx(e) ==
       \* bookkeeping of the harness is only meaningful (and only checked) when the built bytes are the expected ones;
       \* wrong bytes are a violation by themselves (bytesOk), never a generator problem
       genbug == ~inDom \/ (bytesOk /\ (nInvalid > 0 \/ ~triedOk \/ specAccepts # <<>>))
-  IN [ok |-> ~genbug /\ bytesOk /\ sumOk /\ specReads /\ realReads /\ e.noterr = <<>> /\ realAccepts = <<>>,
+  IN [ok |-> ~genbug /\ bytesOk /\ sumOk /\ specReads /\ realReads /\ ownIntact /\ reReads /\ e.noterr = <<>> /\ realAccepts = <<>>,
       info |-> [id |-> e.id, ev |-> "sx", genbug |-> genbug, inDom |-> inDom, invalidCorruptions |-> nInvalid, triedOk |-> triedOk,
                 specAcceptsSample |-> Len(specAccepts), bytesOk |-> bytesOk, sumOk |-> sumOk, specReads |-> specReads,
-                pkind |-> e.pkind, pmsg |-> e.pmsg, valueOk |-> realReads, notRejected |-> Len(e.noterr),
+                pkind |-> e.pkind, pmsg |-> e.pmsg, valueOk |-> realReads, callersBytesIntact |-> ownIntact, secondParseOk |-> reReads, notRejected |-> Len(e.noterr),
                 first |-> IF e.noterr = <<>> THEN <<>> ELSE <<[pos |-> e.noterr[1].pos, val |-> e.noterr[1].val,
                                                              kind |-> e.noterr[1].kind, msg |-> e.noterr[1].msg]>>,
                 sampleNotRejected |-> Len(realAccepts), nsample |-> Len(e.sample), ntried |-> e.ntried]]
